@@ -1,7 +1,7 @@
 //! C07: the sliding window over its four storage back-ends, the real ones.
 //!
 //! `case <id> <kind> <size> <cap|multiple> <ty>` with kind ∈ arr | vec (alias vecfix) | uarr | uvec (the last two only in the
-//! `unsafe_impl` build) and ty ∈ u8 | u32 | u64 | w12 | w24 (12- and 24-byte elements). The array storages are const-generic, so they come from a fixed menu
+//! `unsafe_impl` build) and ty ∈ u8 | u16 | w3 | u32 | u64 | w12 | w24 (3-, 12- and 24-byte elements). The array storages are const-generic, so they come from a fixed menu
 //! of (SIZE, CAPACITY) instantiations (sizes 1…9, every capacity N+1 … 3N, plus a few malformed ones).
 //!
 //! ops: `push <v>` (answers with the full observation after the push), `obs`, and the single accessors
@@ -16,6 +16,7 @@ use std::str::FromStr;
 
 pub trait Elem: PartialEq + Copy + Default + Display + FromStr + 'static {}
 impl Elem for u8 {}
+impl Elem for u16 {}
 impl Elem for u32 {}
 impl Elem for u64 {}
 
@@ -60,6 +61,28 @@ impl FromStr for W24 {
 }
 impl Elem for W12 {}
 impl Elem for W24 {}
+
+/// a 3-byte element (smaller than 4 bytes but not 1: the unsafe array storage's small-type path): `v` stored as (v, v+1, v+2) mod 256
+#[derive(PartialEq, Copy, Clone, Default)]
+pub struct W3([u8; 3]);
+impl Display for W3 {
+    fn fmt(&self, f: &mut std::fmt::Formatter<'_>) -> std::fmt::Result {
+        let a = self.0;
+        if (a[0] == 0 && a[1] == 0 && a[2] == 0) || (a[1] == a[0].wrapping_add(1) && a[2] == a[0].wrapping_add(2)) {
+            write!(f, "{}", a[0])
+        } else {
+            write!(f, "corrupt:{}/{}/{}", a[0], a[1], a[2])
+        }
+    }
+}
+impl FromStr for W3 {
+    type Err = std::num::ParseIntError;
+    fn from_str(s: &str) -> Result<Self, Self::Err> {
+        let v: u8 = s.parse()?;
+        Ok(if v == 0 { W3([0, 0, 0]) } else { W3([v, v.wrapping_add(1), v.wrapping_add(2)]) })
+    }
+}
+impl Elem for W3 {}
 
 fn list<T: Display>(xs: &[T]) -> String {
     if xs.is_empty() {
@@ -174,7 +197,7 @@ macro_rules! arr_menu {
 arr_menu! { mk_arr, ArrayStorage, window_type::new_with_array_storage;
     (0, 1, 2) => [2, 3];
     (1, 2, 3) => [3, 4, 5, 6];
-    (2, 3, 4) => [4, 5, 6, 7, 8, 9];
+    (2, 3, 4) => [4, 5, 6, 7, 8, 9, 300];
     (3, 4, 5) => [5, 6, 7, 8, 9, 10, 11, 12];
     (4, 5, 6) => [6, 7, 8, 9, 10, 11, 12, 13, 14, 15];
     (5, 6, 7) => [7, 8, 9, 10, 11, 12, 13, 14, 15, 16, 17, 18];
@@ -191,7 +214,7 @@ arr_menu! { mk_arr, ArrayStorage, window_type::new_with_array_storage;
 arr_menu! { mk_uarr, UnsafeArrayStorage, window_type::new_with_unsafe_array_storage;
     (0, 1, 2) => [2, 3];
     (1, 2, 3) => [3, 4, 5, 6];
-    (2, 3, 4) => [4, 5, 6, 7, 8, 9];
+    (2, 3, 4) => [4, 5, 6, 7, 8, 9, 300];
     (3, 4, 5) => [5, 6, 7, 8, 9, 10, 11, 12];
     (4, 5, 6) => [6, 7, 8, 9, 10, 11, 12, 13, 14, 15];
     (5, 6, 7) => [7, 8, 9, 10, 11, 12, 13, 14, 15, 16, 17, 18];
@@ -253,6 +276,8 @@ impl Interp for C07 {
         let (kind, size, c, ty) = (a[1], p::<usize>(a[2]), p::<usize>(a[3]), a[4]);
         self.win = match ty {
             "u8" => mk::<u8>(kind, size, c),
+            "u16" => mk::<u16>(kind, size, c),
+            "w3" => mk::<W3>(kind, size, c),
             "u32" => mk::<u32>(kind, size, c),
             "u64" => mk::<u64>(kind, size, c),
             "w12" => mk::<W12>(kind, size, c),
